@@ -3,6 +3,7 @@ package main
 // engine.go — program loading, per-function verification driver, SMT script assembly.
 
 import (
+	"runtime/debug"
 	"fmt"
 	"go/token"
 	"go/types"
@@ -17,30 +18,31 @@ import (
 )
 
 type Engine struct {
-	Fset     *token.FileSet
-	Prog     *ssa.Program
-	Pkgs     []*packages.Package
-	SPkgs    []*ssa.Package
-	Model    *Model
-	Specs    *Specs
-	RepoDir  string
-	ModPath  string
-	allFuncs map[*ssa.Function]bool
-	byKey    map[string]*ssa.Function
-	fnIDs    map[*ssa.Function]int
-	extSigs  map[string]builtinSig
-	gtNames  map[string]types.Type
-	modCache map[*ssa.Function]*ModInfo
-	mu       sync.Mutex
-	globals  map[string]*globalInfo
-	addrTaken map[string][]*ssa.Function
-	rawMod    map[*ssa.Function]*ModInfo
+	Fset       *token.FileSet
+	Prog       *ssa.Program
+	Pkgs       []*packages.Package
+	SPkgs      []*ssa.Package
+	Model      *Model
+	Specs      *Specs
+	RepoDir    string
+	ModPath    string
+	allFuncs   map[*ssa.Function]bool
+	byKey      map[string]*ssa.Function
+	fnIDs      map[*ssa.Function]int
+	extSigs    map[string]builtinSig
+	gtNames    map[string]types.Type
+	modCache   map[*ssa.Function]*ModInfo
+	mu         sync.Mutex
+	globals    map[string]*globalInfo
+	addrTaken  map[string][]*ssa.Function
+	rawMod     map[*ssa.Function]*ModInfo
 	ignorePure bool
-	tables   map[string]*TableInfo
-	frozen   map[string]bool
-	usedC    map[string]map[string]bool
-	usedX    map[string]map[string]bool
-	specErrs []string
+	sigIndex   map[string][]*ssa.Function
+	tables     map[string]*TableInfo
+	frozen     map[string]bool
+	usedC      map[string]map[string]bool
+	usedX      map[string]map[string]bool
+	specErrs   []string
 }
 
 func LoadEngine(repo string) (*Engine, error) {
@@ -234,6 +236,9 @@ func (e *Engine) Translate(fn *ssa.Function) (c *FnCtx, err error) {
 	defer func() {
 		if r := recover(); r != nil {
 			err = fmt.Errorf("translation of %s failed: %v", fnKey(fn), r)
+			if os.Getenv("GOVC_DEBUG") != "" {
+				fmt.Fprintf(os.Stderr, "%s\n", debug.Stack())
+			}
 		}
 	}()
 	spec := e.Specs.Funcs[fnKey(fn)]
@@ -390,6 +395,10 @@ func (c *FnCtx) havocMod(exist, fresh map[string]bool, why string) {
 		old := c.H(n)
 		nw := c.havocHeap(n)
 		if !exist[n] && !strings.HasPrefix(n, "G|") {
+			if c.hparent == nil {
+				c.hparent = map[string]heapParent{}
+			}
+			c.hparent[nw] = heapParent{old: old, wm: wm}
 			c.fact(fmt.Sprintf("(forall ((qr Int)) (! (=> (<= qr %s) (= (select %s qr) (select %s qr))) :pattern ((select %s qr))))", wm, nw, old, nw))
 		}
 	}
